@@ -148,6 +148,9 @@ func (r *Run) Explore(cfg explore.Config, rule string, body func(*explore.Ctx)) 
 	if only := os.Getenv("VERIF_ONLY"); only != "" && !strings.Contains(cfg.Name, only) {
 		return &Part{Name: cfg.Name}
 	}
+	if skipInChild(cfg.Name) {
+		return &Part{Name: cfg.Name}
+	}
 	if cfg.Deadline.IsZero() {
 		cfg.Deadline = r.deadline
 	}
@@ -202,7 +205,7 @@ func (r *Run) BFS(cfg explore.BFSConfig, rule string, body func(*explore.Ctx)) *
 // AddPart records a part produced by a custom engine (BFS, scheduler).
 // body (may be nil) replays a choice sequence for confirmation.
 func (r *Run) AddPart(p *Part, samples []any, viol []*explore.Violation, herr []string, body func(*explore.Ctx)) {
-	if r.replay != nil {
+	if r.replay != nil || InChild() {
 		return
 	}
 	p.samples, p.violations, p.herr, p.body = samples, viol, herr, body
@@ -304,6 +307,9 @@ func loadFindings() []Finding {
 
 // Finish writes evidence and exits.
 func (r *Run) Finish() {
+	if InChild() {
+		explore.Fatal("shard worker: the part %q was not reached", os.Getenv("VERIF_SHARD"))
+	}
 	if r.replay != nil {
 		explore.Fatal("replay harness %q not found in property %s", r.replay.Harness, r.Prop)
 	}
